@@ -24,7 +24,7 @@ type tblType struct {
 }
 type tblMember struct{ Field, GoType, Kind string }
 type tblProp struct {
-	Name, Vocab, Struct string
+	Name, Vocab, VocabURI, Struct string
 	Functional, HasMap  bool
 	Members             []tblMember
 }
